@@ -16,9 +16,9 @@ func zzRunSync(m *Manager, P []*zzSlot, order int) int {
 	for _, ev := range perms[order] {
 		k := ev / 2
 		if ev%2 == 0 {
-			m.headerInCh <- NewHeaderEvent{zzCopyHeader(P[k].header), 7}
+			m.headerInCh <- NewHeaderEvent{zzCopyHeader(P[k].header), zzC05HeaderAt[k]}
 		} else if len(P[k].data.Txs) > 0 {
-			m.dataInCh <- NewDataEvent{zzCopyData(P[k].data), 7}
+			m.dataInCh <- NewDataEvent{zzCopyData(P[k].data), zzC05DataAt[k]}
 		} else {
 			continue
 		}
@@ -41,6 +41,10 @@ func zzRunSync(m *Manager, P []*zzSlot, order int) int {
 	}
 	return nerr
 }
+
+// DA heights at which the four blobs are (the events carry them)
+var zzC05HeaderAt = []uint64{5, 6}
+var zzC05DataAt = []uint64{9, 8}
 
 // ZZ_C05_crash: a full node applying the proposer's next two blocks dies at an
 // arbitrary durable write (index 0..6 over state/block/height of both
@@ -77,6 +81,15 @@ func ZZ_C05_crash() {
 		}
 	}
 	zzsym.Region("state-recorded-before-the-block", stateAhead)
+	// the DA scan resumes at or below every DA height holding a blob of a block not yet applied
+	for k := 0; k < 2; k++ {
+		if H+uint64(k)+1 > e.store.height {
+			zzsym.Assert(m.daHeight.Load() <= zzC05HeaderAt[k], "restart-rescans-da-heights-of-unapplied-headers")
+			if len(P[k].data.Txs) > 0 {
+				zzsym.Assert(m.daHeight.Load() <= zzC05DataAt[k], "restart-rescans-da-heights-of-unapplied-data")
+			}
+		}
+	}
 	// image after restart: height, state and blocks agree, blocks are the proposer's
 	h0 := e.store.height
 	zzsym.Assert(h0 >= H && h0 <= H+2, "recorded-height-in-range")
